@@ -251,7 +251,9 @@ static void apply_delivery(int id, int hit)
         /* several preemptions of the same victim in one instant are delivered as one PREEMPTED signal */
         for (int k = 0; k < nled; k++) if (led[k].tgt == id && led[k].kind == L_PREEMPT && led[k].due == led[hit].due) led[k].delivered = 1;
     }
-    if (led[hit].kind == L_INTR) interrupt_clears(id);      /* the interrupt handler cancels whatever is still queued for the process when it is delivered */
+    /* the interrupt handler cancels whatever is still queued for the process when it is delivered; a pool preemption is
+     * notified through that handler (cmb_process_interrupt with PREEMPTED), a resource preemption through its own wake-up */
+    if (led[hit].kind == L_INTR || (led[hit].kind == L_PREEMPT && led[hit].handle == 1)) interrupt_clears(id);
     if (led[hit].kind == L_TIMER) {
         for (int t = 0; t < P[id].ntimers; t++) if (P[id].timers[t] == led[hit].handle) { P[id].timers[t] = P[id].timers[--P[id].ntimers]; break; }
     }
@@ -273,7 +275,7 @@ static void account_signal(int id, int64_t r, const char *unused)
         for (int c = 0; c < nc; c++) {
             /* events that would remain queued if candidate c is the one delivered */
             uint64_t n = 0;
-            int clears = (led[cand[c]].kind == L_INTR);
+            int clears = (led[cand[c]].kind == L_INTR || (led[cand[c]].kind == L_PREEMPT && led[cand[c]].handle == 1));
             for (int k = 0; k < nled; k++) {
                 if (led[k].tgt != id || led[k].delivered || led[k].cancelled || k == cand[c]) continue;
                 if (clears && (led[k].kind == L_TIMER || led[k].kind == L_RESUME || led[k].kind == L_INTR)) continue;
@@ -391,12 +393,12 @@ static void invariants(void)
             int culprit = 0;
             for (int j = 0; j < NPROC; j++) if (j != i && (P[j].in_ppre || P[j].ppre_time == cmb_time()) && P[j].prio > P[i].prio) culprit = 1;
             sym_assert(culprit, "pool units are only taken away by a preempt from a strictly higher priority process");
-            interrupt_clears(i); ledger_add(i, L_PREEMPT, CMB_PROCESS_PREEMPTED, cmb_time(), 0);
+            ledger_add(i, L_PREEMPT, CMB_PROCESS_PREEMPTED, cmb_time(), 1);      /* handle 1: a pool preemption, delivered through the interrupt handler */
             P[i].pool_held = 0;
         } else sym_assert(h == P[i].pool_held, "pool held_by_process agrees with the shadow holding");
         if (P[i].waiting == W_PACQ && h == 0 && P[i].pool_held > 0) {
             /* a blocked acquirer that held something before its call and now holds nothing was preempted */
-            interrupt_clears(i); ledger_add(i, L_PREEMPT, CMB_PROCESS_PREEMPTED, cmb_time(), 0);
+            ledger_add(i, L_PREEMPT, CMB_PROCESS_PREEMPTED, cmb_time(), 1);      /* handle 1: a pool preemption, delivered through the interrupt handler */
             P[i].pool_held = 0;
         }
         sum += h;
@@ -620,7 +622,7 @@ static void step(int id, int op)
                     sym_assert(op == OP_PPRE, "only a preempt takes units from another process");
                     sym_assert(P[i].prio < P[id].prio, "pool preempt only takes from strictly lower priority processes");
                     P[i].pool_held = 0;
-                    interrupt_clears(i); ledger_add(i, L_PREEMPT, CMB_PROCESS_PREEMPTED, cmb_time(), 0);
+                    ledger_add(i, L_PREEMPT, CMB_PROCESS_PREEMPTED, cmb_time(), 1);      /* handle 1: a pool preemption, delivered through the interrupt handler */
                 }
             }
         } else {
